@@ -153,12 +153,19 @@ def requests_for(app, inst):
     return out
 
 
-def probe(kind, rule, method, url, cred_name, cred, body, statedir_root):
-    """one refused-request experiment on a fresh server; returns None or a description"""
+def probe(kind, rule, method, url, cred_name, cred, body, statedir_root, warm=False):
+    """one refused-request experiment on a fresh server; returns None or a description.
+    warm: the same request is first made WITH the token (whatever it does is legitimate); the refused one follows"""
     d = tempfile.mkdtemp(prefix="c15-", dir=statedir_root)
     try:
         app, c, inst = build_state(kind, d)
         url = url.replace("0" * 32, inst) if inst else url
+        if warm:
+            try:
+                r0 = c.open(url, method=method, headers=auth(TOKEN), json=body) if body is not None else c.open(url, method=method, headers=auth(TOKEN))
+                _ = r0.data
+            except Exception:
+                pass
         before = snapshot(app, d)
         headers = {} if cred is None else {"Authorization": cred}
         try:
@@ -168,11 +175,12 @@ def probe(kind, rule, method, url, cred_name, cred, body, statedir_root):
         except Exception as e:
             status = 500
         after = snapshot(app, d)
+        w = " right after the same request was served with the token" if warm else ""
         if status < 400:
-            return "status %d for %s %s with credentials '%s' (%r) in state %s" % (status, method, rule, cred_name, cred, kind)
+            return "status %d for %s %s with credentials '%s' (%r) in state %s%s" % (status, method, rule, cred_name, cred, kind, w)
         if after != before:
             diff = [k for k in after if after[k] != before[k]]
-            return "state changed (%s) by refused %s %s with credentials '%s' in state %s" % (diff, method, rule, cred_name, kind)
+            return "state changed (%s) by refused %s %s with credentials '%s' in state %s%s" % (diff, method, rule, cred_name, kind, w)
         return None
     finally:
         shutil.rmtree(d, ignore_errors=True)
@@ -189,7 +197,7 @@ def replay(case):
     root = tempfile.mkdtemp(prefix="c15-replay-")
     try:
         body = BODIES[case["body"]]
-        r = probe(case["state"], case["rule"], case["method"], case["url"], case["cred_name"], case["cred"], body, root)
+        r = probe(case["state"], case["rule"], case["method"], case["url"], case["cred_name"], case["cred"], body, root, warm=case.get("warm", False))
         return (r is not None), r or "refused without side effects"
     finally:
         shutil.rmtree(root, ignore_errors=True)
@@ -201,7 +209,7 @@ def run(tier):
     rep.encoded(srv.BptkServer.token_required, srv.BptkServer.__init__)
     # the claim (both tiers): header <= 5, token <= 2 characters; the thorough tier adds header <= 7, token <= 3
     # under a wall-time budget (not explored if CrossHair does not finish)
-    hm, tm, tmo = 5, 2, (150 if tier == "quick" else 300)
+    hm, tm, tmo = 5, 2, (300 if tier == "quick" else 450)
     env = {"C15_HMAX": str(hm), "C15_TMAX": str(tm)}
     jobs = [(HFILE, "_served_only_with_token", tmo, env, "main", True),
             (HFILE, "_served_only_with_token_twin", 60, env, "twin", True),
@@ -236,11 +244,13 @@ def run(tier):
                     for bi, body in enumerate(BODIES):
                         if tier == "quick" and bi == 0 and cn not in ("absent", "wrong"):
                             continue
-                        experiments += 1
-                        res = probe(kind, rule, method, url, cn, cred, body, root)
-                        if res:
-                            rep.candidate("route:%s:%s" % (method, rule), {"kind": "route", "state": kind, "rule": rule, "method": method,
-                                                                          "url": url, "cred_name": cn, "cred": cred, "body": bi}, res)
+                        for warm in ((False, True) if (cn in ("absent", "wrong") and kind in ("none", "session")) else (False,)):
+                            experiments += 1
+                            res = probe(kind, rule, method, url, cn, cred, body, root, warm=warm)
+                            if res:
+                                rep.candidate("route:%s:%s%s" % (method, rule, ":warm" if warm else ""),
+                                              {"kind": "route", "state": kind, "rule": rule, "method": method, "url": url, "cred_name": cn,
+                                               "cred": cred, "body": bi, "warm": warm}, res)
                         if len(samples) < 4 and experiments % 97 == 1:
                             samples.append({"request": "%s %s" % (method, url), "credentials": cn, "state": kind, "refused_cleanly": res is None})
     finally:
@@ -267,6 +277,7 @@ def run(tier):
         samples.append({"condition": fn + "/" + kind, "verdict": r.verdict, "seconds": round(r.seconds, 1)})
     rep.assume("decorator: header <= %d characters, token <= %d characters (symbolic unicode strings), presence flag symbolic" % (hm, tm),
                "route table: enumerated from the live app's url_map (finite); credential shapes are %d fixed boundary cases; four server states (no instance, session, locked session, session persisted but not in memory)" % len(credentials(TOKEN)),
+               "warm variant (absent/wrong credentials, states none and session): the refused request follows the same request made with the token",
                "Flask/Werkzeug routing and header parsing are trusted")
     rep.coverage.update({"states": experiments + chx.STATS["conditions"], "transitions": max(1, confirmed + experiments - len(rep.cands)),
                          "traces_validated_against_impl": experiments, "samples": samples,
